@@ -196,7 +196,7 @@ theorem writeFrame_eq (f : Frame) (hw : f.header.WF) :
 /-- Whole-frame read of a written frame returns the frame and leaves what follows untouched,
     for every chunking. -/
 theorem frame_roundtrip (f : Frame) (hw : f.header.WF) (hp : Bytes.WF f.payload)
-    (hlen : f.payload.length = f.header.len) (rest : Bytes) (hr : Bytes.WF rest) (s : Src)
+    (hlen : f.payload.length = f.header.len) (hmax : f.header.len ≤ maxSliceLen) (rest : Bytes) (hr : Bytes.WF rest) (s : Src)
     (hs : s.bytes = rfcEncode f.header ++ f.payload ++ rest) :
     (readFrame s).1 = .ok f ∧ (readFrame s).2.bytes = rest := by
   have hwf : Bytes.WF (f.payload ++ rest) := by
@@ -209,6 +209,8 @@ theorem frame_roundtrip (f : Frame) (hw : f.header.WF) (hp : Bytes.WF f.payload)
   rw [hrd] at h1 h2 h3
   simp only at h1 h2 h3
   subst h1
+  have hnm : ¬ f.header.len > maxSliceLen := by omega
+  simp only [if_neg hnm]
   by_cases hz : f.header.len > 0
   · obtain ⟨s2, g1, g2, _⟩ := s1.readFull_ok f.header.len (by rw [h2]; simp; omega)
     simp only [if_pos hz, g1, h2, g2]
